@@ -155,3 +155,10 @@ mut("c19-frost-decode-list-hangs", "C19", F,
     "            let mut r: Vec<VSSElement> = Vec::with_capacity(n);\n            for i in 0..n {\n                r.push(VSSElement(point_decode(&buf[NE * i .. NE * (i + 1)])?));\n            }",
     "            let mut r: Vec<VSSElement> = Vec::with_capacity(n);\n            let mut i = 0;\n            while i < n {\n                match point_decode(&buf[NE * i .. NE * (i + 1)]) {\n                    Some(p) => { r.push(VSSElement(p)); i += 1; }\n                    None => { if n > 5 { continue; } else { return None; } }\n                }\n            }",
     "VSSElement::decode_list loops forever on an invalid element when the list has more than 5 entries")
+
+# ---------------------------------------------------------------- memory safety (C19: "no ... out-of-bounds"), invisible in outputs
+mut("c19-blake2s-tail-copy-overread", "C19", "src/blake2s.rs",
+    "                self.buf[..clen].copy_from_slice(&data[j..]);\n",
+    "                // word-wise copy of the buffered tail\n                for k in 0..((clen + 7) >> 3) {\n                    let w = unsafe { (data.as_ptr().add(j + 8 * k) as *const u64).read_unaligned() };\n                    self.buf[8 * k..8 * k + 8].copy_from_slice(&w.to_ne_bytes());\n                }\n",
+    "BLAKE2s update copies the buffered tail in 8-byte words: reads up to 7 bytes past the caller's slice; the stray bytes "
+    "are always overwritten or zero-padded before use, so no digest changes - only the interpreter step sees it")
